@@ -39,6 +39,9 @@ ASSUMPTIONS = [
     'the framer is abstracted in the theorem: an operation `reply t` is a complete, decodable reply frame with '
     'transaction id t reaching _handleResponse (chunking is C06; here whole frames, one or several per dataReceived)',
     'the application only re-enters `execute` (not dataReceived/connectionLost/close) from its callbacks and errbacks',
+    'close() is an operation of the history; the transport\'s connectionLost that follows it is issued by the harness as '
+    'a separate operation (a real reactor calls it later); ModbusUdpClientProtocol.close() is the inherited no-op and is '
+    'not exercised',
     'Twisted runs callbacks synchronously in Deferred.callback/errback and at addCallbacks on an already fired '
     'deferred (checked on every run: the event order is compared with the model)',
     'ModbusUdpClientProtocol has no connection state (its _buildResponse never fails): it is compared with the dict '
@@ -50,7 +53,8 @@ TRUSTED = ['harness/c16.py: fake transport (twisted StringTransport subclass), e
 RULE = ('operation histories on one protocol instance x {tcp/dict, serial/fifo}: connectionMade, execute (requests '
         'with continuation trees up to depth 3: callback and/or errback re-enter execute), reply frames (to a pending '
         'tid, duplicate of an answered tid, unsolicited tid; several frames per dataReceived), connectionLost (also '
-        'twice, also followed by a new connectionMade); all reply permutations for <= 5 outstanding, random histories '
+        'twice, also followed by a new connectionMade), close() (transport with/without a close attribute; at every '
+        'point of base histories, followed by late replies, further requests and the transport\'s connectionLost); all reply permutations for <= 5 outstanding, random histories '
         'with up to 12 (quick) / 300 (thorough) outstanding, connection loss inserted at every point of base histories, '
         'a wrap-around history of 65540 requests; non-trivial = at least one deferred fired; distinct by canonical JSON')
 
@@ -170,6 +174,15 @@ class Real(object):
                     self.proto.connectionMade()
             elif op[0] == 'lost':
                 self.proto.connectionLost('simulated')
+            elif op[0] == 'close':
+                # the application closes the client; op[1] = does the transport object have a `close` attribute
+                # (Twisted's own TCP/serial transports do not: they have loseConnection).  The transport's
+                # connectionLost is a separate, later operation of the history, as with a real reactor.
+                if op[1]:
+                    self.transport.close = lambda: self.events.append(['tclose'])
+                elif 'close' in self.transport.__dict__:
+                    del self.transport.close
+                self.proto.close()
             elif op[0] == 'exec':
                 self.do_execute(op[1])
             elif op[0] == 'reply':
@@ -266,6 +279,9 @@ def check_trace(variant, ops, segs, table_ids, stats):
             bad('distinct', 'two outstanding requests carry the same transaction id before op %d' % idx)
         kind = op[0]
         down = kind == 'lost' or (kind in ('exec', 'reply') and not conn)
+        if kind == 'close':
+            if [e for e in es if e[0] != 'tclose'] or len(es) != (1 if op[1] else 0):
+                bad('close_quiet', 'close() at op %d caused %r (expected only transport.close())' % (idx, es[:4]))
         pre_out = list(outstanding) if kind == 'lost' else None
         if kind == 'reply':
             t, tag = op[1], op[2]
@@ -326,6 +342,9 @@ def check_trace(variant, ops, segs, table_ids, stats):
                         eb_here.add((rid, 'notconn'))
                     else:
                         bad('no_exc', 'deferred %d failed with %s' % (rid, e[2]))
+            elif e[0] == 'tclose':
+                if kind != 'close':
+                    bad('close_quiet', 'transport.close() called during op %d %r' % (idx, op[:3]))
             elif e[0] == 'exc':
                 bad('no_exc', 'exception %s escaped from op %d %r' % (e[1], idx, op[:3]))
         if kind == 'reply':
@@ -344,8 +363,8 @@ def check_trace(variant, ops, segs, table_ids, stats):
                     bad('fails_when_down', 'request %d issued while the connection is down (op %d) did not fail' % (rid, idx))
         if kind == 'made':
             conn = True
-        elif kind == 'lost':
-            conn = False
+        elif kind in ('lost', 'close'):
+            conn = False            # after a local close() the client counts as disconnected
     if outstanding and len(sent) - next(iter(outstanding)) > 65536:
         wrapped = True
     if sorted(outstanding) != sorted(table_ids):
@@ -400,7 +419,7 @@ def expand(case):
         if case['variant'] == 'fifo':
             ops = [[o[0], case.get('unit', 1), o[2]] if o[0] == 'reply' else o for o in ops]
         return dict(kind='hist', variant=case['variant'], unit=case.get('unit', 1), ops=ops, join=[])
-    if case.get('proto') == 'udp' and (case['ops'][:1] != [['made']] or any(o[0] in ('made', 'lost') for o in case['ops'][1:])):
+    if case.get('proto') == 'udp' and (case['ops'][:1] != [['made']] or any(o[0] in ('made', 'lost', 'close') for o in case['ops'][1:])):
         raise ValueError('a udp history is ["made"] followed by exec/reply operations only')
     return case
 
@@ -518,6 +537,11 @@ def gen_random(rng, variant, max_out, length, tag='random', proto=None):
                 t = s.real.unit     # an RTU reply carries no transaction id: the framer reports the unit id
             s.push(['reply', t, rng.randrange(65536)], joined=prev_reply and rng.random() < 0.4)
             prev_reply = True
+        elif r < 0.965:
+            s.push(['close', rng.randrange(2)])
+            prev_reply = False
+            if rng.random() < 0.5:
+                s.push(['lost'])
         elif r < 0.985:
             s.push(['lost'])
             prev_reply = False
@@ -583,6 +607,42 @@ def loss_everywhere(base, rng):
     return out
 
 
+def close_everywhere(base, rng):
+    """the base history with a local close() inserted at every point: alone (the rest of the history - late
+    replies, further requests, a later loss - follows), and directly followed by the transport's connectionLost"""
+    out = []
+    ops = base['ops']
+    for cut in range(len(ops) + 1):
+        for ins in ([['close', rng.randrange(2)]], [['close', rng.randrange(2)], ['lost']]):
+            new = [list(o) for o in ops[:cut]] + ins + [list(o) for o in ops[cut:]]
+            if new[-1][0] != 'lost':
+                new.append(['lost'])
+            join = [j if j < cut else j + len(ins) for j in base.get('join', []) if j != cut]
+            out.append(dict(kind='hist', variant=base['variant'], unit=base.get('unit', 1), ops=new, join=join,
+                            tag='close-at'))
+    return out
+
+
+def close_scenario(rng, variant, n):
+    """n outstanding; close(); some late replies / further requests; the transport reports the loss; a request after it"""
+    ops = [['made']] + [['exec', gen_req(rng, 2)] for _ in range(n)]
+    if n and rng.random() < 0.4:
+        ops.append(['reply', rng.randrange(1, n + 1) if variant == 'dict' else 1, 5])
+    ops.append(['close', rng.randrange(2)])
+    for _ in range(rng.randrange(0, 3)):
+        if rng.random() < 0.5 and n:
+            ops.append(['reply', rng.randrange(1, n + 1) if variant == 'dict' else 1, 6])
+        else:
+            ops.append(['exec', gen_req(rng, 2)])
+    if rng.random() < 0.2:
+        ops.append(['close', rng.randrange(2)])
+    ops.append(['lost'])
+    ops.append(['exec', {'err': {}}])
+    if rng.random() < 0.3:
+        ops.append(['lost'])
+    return dict(kind='hist', variant=variant, unit=1, ops=ops, join=[], tag='close-loss')
+
+
 def reentrant_loss(rng, variant, n):
     """n outstanding, every one with an errback that retries (chains of retries), then the connection is lost"""
     ops = [['made']]
@@ -618,6 +678,9 @@ def run(ctx):
         for n in (1, 2, 3, 5):
             for _ in range(ctx.scale(3, 12)):
                 batch.append(reentrant_loss(rng, variant, n))
+        for n in (0, 1, 2, 3, 5):
+            for _ in range(ctx.scale(4, 12)):
+                batch.append(close_scenario(rng, variant, n))
     check_cases(ctx, rep, batch)
     # all reply permutations
     for variant in ('dict', 'fifo'):
@@ -644,6 +707,8 @@ def run(ctx):
             base = gen_random(rng, variant, 6, rng.choice([6, 10, 14]), tag='base')
             batch.append(base)
             batch.extend(loss_everywhere(base, rng))
+            if i % ctx.scale(2, 3) == 0:
+                batch.extend(close_everywhere(base, rng))
             if not ctx.quick and i % 10 == 0:
                 batch.append(gen_random(rng, variant, 300, rng.choice([700, 1500]), tag='wide'))
         check_cases(ctx, rep, batch)
